@@ -11,6 +11,7 @@ import itertools
 import re
 from concurrent.futures import ThreadPoolExecutor
 
+from harness.c17.util import report
 from harness.vlib.core import Ctx, ToolFailure
 
 # the two error codes the enumeration uses (must be real error-code names: apply_changes indexes error_codes)
@@ -293,7 +294,7 @@ def resolution_search(ctx: Ctx, g, secs, m, real: str, mvals: str) -> None:
         if real_clone(g, secs, [mod])[0] != doc_oracle(g, secs, mod):
             small = shrink_sections(g, secs, mod)
             got, want = real_clone(g, small, [mod])[0], doc_oracle(g, small, mod)
-            ctx.report({"class": "precedence", "module": mod, "sections": [p for p, _ in small]},
+            report(ctx, {"class": "precedence", "module": mod, "sections": [p for p, _ in small]},
                        f"clone_for_module('{mod}') with sections {[p for p, _ in small]} gives [{got}], the documented "
                        f"precedence gives [{want}]",
                        {"kind": "resolution", "global": g, "sections": small, "module": mod, "real": got, "documented": want})
@@ -334,7 +335,7 @@ def glob_correspondence(ctx: Ctx) -> None:
             if ndiff <= 3:
                 realm = int(r.rsplit("m=", 1)[1])
                 if realm != doc:
-                    ctx.report({"class": "glob", "pattern": pat, "module": mod},
+                    report(ctx, {"class": "glob", "pattern": pat, "module": mod},
                                f"section pattern '{pat}' {'matches' if realm else 'does not match'} module '{mod}' "
                                f"(regex {r.split(' ')[0][3:]}), the documented rule says the opposite",
                                {"kind": "glob", "pattern": pat, "module": mod, "real": r, "documented_match": doc})
